@@ -1,6 +1,8 @@
 # C09 — go-style channel: model coq/C09, direct harness harness/C09 (real photon, one vCPU), E2/E3 ties in extra()
 import re, itertools
 from vlib import *
+sys.path.insert(0, os.path.join(VERIF, 'harness', 'E2'))
+import e2lib
 
 def has_fix():
     try:
@@ -36,8 +38,9 @@ CLOSERS = ['C', 'Y C', 'Y Y C']
 
 class Check(DiffCheck):
     id = 'C09'
-    coq_dirs = ['Base', 'C09']
-    coq_targets = ['C09/C09_Proofs.vo']
+    coq_dirs = ['Base', 'C09', 'C04', 'Sched']
+    coq_targets = ['C09/C09_Proofs.vo', 'C09/C09_E2.vo']
+    needs_libphoton = True
     properties_v = 'C09/C09_Properties.v'
     extract_v = 'C09/C09_Extract.v'
     runner_ml = 'ocaml/C09_run.ml'
@@ -230,11 +233,93 @@ class Check(DiffCheck):
             out.append(hd + ' | ' + ' | '.join(' '.join(x) for x in p))
         return out
 
+    # ---- engine E2: timed programs on the real scheduler under the virtual clock -------------------
+    def gen_e2(self, rng, n):
+        out = []
+        for _ in range(n):
+            cap = rng.choice([0, 0, 0, 1, 1, 2, 3])
+            nt = rng.randint(2, 4)
+            progs = []
+            for k in range(1, nt + 1):
+                ops = []
+                role = rng.random()
+                for _ in range(rng.randint(1, 3)):
+                    d = rng.choice([-1, -1, 0, 100, 200, 300, 500])
+                    if rng.random() < 0.35: ops.append('usleep %d' % rng.choice([50, 100, 150, 200, 250, 300, 400]))
+                    if role < 0.42: ops.append(rng.choice(['send 0 %d' % d] * 4 + ['try_send 0']))
+                    elif role < 0.84: ops.append(rng.choice(['recv 0 %d' % d] * 4 + ['try_recv 0']))
+                    else: ops.append(rng.choice(['close 0', 'yield', 'send 0 %d' % d, 'recv 0 %d' % d]))
+                progs.append(';'.join(ops))
+            main = ';'.join('create %d 0' % k for k in range(1, nt + 1))
+            out.append('P chan %d %d | %s | %s' % (cap, 1 if self.fx else 0, main, ' | '.join(progs)))
+        # the F10 witness with timeouts, and a close during a hand-off
+        out.insert(0, 'P chan 0 %d | create 1 0;create 2 0;create 3 0 | recv 0 -1 | send 0 500 | send 0 500' % (1 if self.fx else 0))
+        out.insert(1, 'P chan 0 %d | create 1 0;create 2 0;create 3 0 | send 0 400 | usleep 100;recv 0 -1 | usleep 200;close 0' % (1 if self.fx else 0))
+        return out
+
+    def e2_oracle(self, case, line):
+        decls, threads = e2lib.parse_case(case)
+        cap = decls[0][1][0]
+        res = e2lib.parse_result(line)
+        if res is None or res['flag']:
+            return 'E2 run did not end normally: %s' % line[:200]
+        sent_true, recvd, nsend = [], [], {}
+        for (t, pc, ret, err, tm) in res['tr']:
+            name, args = threads[t][pc]
+            if name in ('send', 'try_send'):
+                q = nsend.get(t, 0); nsend[t] = q + 1
+                if ret == 1: sent_true.append((t, q, name))
+            if name in ('recv', 'try_recv') and ret >= 0:
+                recvd.append((ret // 1000, ret % 1000))
+        for v in recvd:
+            if recvd.count(v) > 1: return 'value %s delivered twice' % (v,)
+            s, q = v
+            if not (0 <= s < len(threads)) or q >= sum(1 for n, _ in threads[s] if n in ('send', 'try_send')):
+                return 'value %s delivered but never sent' % (v,)
+        last = {}
+        for s, q in recvd:
+            if s in last and q < last[s]: return 'values of sender %d out of order' % s
+            last[s] = q
+        infl = [(t, q, n) for (t, q, n) in sent_true if (t, q) not in recvd]
+        if cap == 0 and any(n == 'send' for (_, _, n) in infl):
+            return 'unbuffered send returned true but its value was never delivered: %s' % (infl[0],)
+        if len(infl) > max(cap, 1):
+            return '%d values reported sent are neither delivered nor fit the channel' % len(infl)
+        return None
+
+    def e2_known(self, case):
+        decls, threads = e2lib.parse_case(case)
+        if self.fx or decls[0][1][0] != 0: return None
+        return 'F10' if sum(1 for th in threads for n, _ in th if n in ('send', 'try_send')) >= 2 else None
+
     def extra(self, ctx):
         if not getattr(self, 'fx', has_fix()):
             print('KNOWN-FINDING: property=C09 F10 unbuffered channel: a second sender overwrites the hand-off slot '
                   '(both sends true, one value lost); repair delivered as repo_patches/C09-fix-unbuffered-overwrite.diff')
-        return []
+        if ctx['tier'] not in ('quick', 'thorough'):
+            return []
+        vio = []
+        runner = e2lib.make_runner('C09e2', ['ocaml/E2_lib.ml', 'ocaml/C09_e2_run.ml'])
+        mexe, mlog = build_model_runner('C09e2', 'C09/C09_E2_Extract.v', runner, 'C09_e2_model')
+        if not mexe:
+            return [dict(kind='proof', message='E2 model runner does not build: ' + mlog[-800:], case=None)]
+        iexe = e2lib.build_impl('C09e2', ['harness/C09/ops_chan.cpp'])
+        cases = self.gen_e2(ctx['rng'], 160 if ctx['tier'] == 'quick' else 3000)
+        mo = run_cases(mexe, cases, ctx['tmp'], 'e2model', timeout=1200)
+        env = self.impl_env(); env['E2_TIMEOUT_MS'] = '60000'
+        io = run_cases(iexe, cases, ctx['tmp'], 'e2impl', timeout=1800, env=env)
+        agree = 0
+        for c, m, i in zip(cases, mo, io):
+            m, i = (m or '').strip(), (i or '').strip()
+            o = self.e2_oracle(c, i)
+            if o and not self.e2_known(c):
+                vio.append(dict(kind='oracle', message='E2: ' + o, case=c, model_out=m, impl_out=i)); break
+            if m != i:
+                vio.append(dict(kind='correspondence', message='E2 (timed programs): model and implementation disagree', case=c, model_out=m, impl_out=i)); break
+            agree += 1
+        self.extra_coverage = dict(e2_cases=len(cases), e2_traces_agreeing=agree,
+                                   e2_rule='random timed programs (2-4 threads, capacities 0-3, Timeout in {never,0,100..500}, usleep, close) + F10 witness with timeouts')
+        return vio
 
 if __name__ == '__main__':
     sys.exit(Check().main(sys.argv[1:]))
